@@ -40,11 +40,11 @@ Theorem writeback_flags_access : forall cf f, c_writeback cf = true ->
   get_writeback_open_flags cf f = (if has f O_APPEND then clear (N.lor (clear f O_ACCMODE) O_RDWR) O_APPEND else N.lor (clear f O_ACCMODE) O_RDWR).
 Proof. intros cf f H Hw. unfold get_writeback_open_flags. rewrite H, Hw. reflexivity. Qed.
 
-Theorem check_fd_flags_sets : forall s hid hd flags hd' s', check_fd_flags s hid hd flags = (hd', s') ->
+Theorem check_fd_flags_sets : forall cf s hid hd flags hd' s', check_fd_flags cf s hid hd flags = (hd', s') ->
   hd_flags hd' = flags /\ hd_host hd' = hd_host hd /\ hd_acc hd' = hd_acc hd /\
-  (hd_flags hd <> flags -> hd_append hd' = has flags O_APPEND) /\ p_host s' = p_host s.
+  (hd_flags hd <> flags -> hd_append hd' = has (setfl_flags cf flags) O_APPEND) /\ p_host s' = p_host s.
 Proof.
-  intros s hid hd flags hd' s' H. unfold check_fd_flags in H.
+  intros cf s hid hd flags hd' s' H. unfold check_fd_flags in H.
   destruct (hd_flags hd =? flags) eqn:E.
   - apply N.eqb_eq in E. inversion H; subst. repeat split; try reflexivity. intros C. contradiction.
   - destruct hid; inversion H; subst; cbn; repeat split; reflexivity.
@@ -107,7 +107,7 @@ Definition direct_open (cf : cfg) (c : creds) (tbl : list (N * idata)) (h : host
   | None => (Err EBADF, h)
   | Some d =>
       if negb (is_safe_inode (id_mode d)) then (Err EBADF, h)
-      else let of := clear (clear (N.lor (clear (get_writeback_open_flags cf flags) O_DIRECT) O_CLOEXEC) O_NOFOLLOW) O_CREAT in
+      else let of := clear (clear (N.lor (strip_direct cf (get_writeback_open_flags cf flags)) O_CLOEXEC) O_NOFOLLOW) O_CREAT in
            match sys_reopen c h (id_host d) of with
            | (Err e, h') => (Err e, h')
            | (Ok _, h') => (Ok (id_host d, of), h')
@@ -123,10 +123,10 @@ Definition direct_fd (cf : cfg) (s : pstate) (handle inode flags : N) : res hdat
        | (Ok (hi, fl), h') => (Ok (new_hdata inode hi fl flags), h')
        end.
 
-Definition fd_append (hd : hdata) (flags : N) : bool :=
-  if hd_flags hd =? flags then hd_append hd else has flags O_APPEND.
-Definition fd_direct (hd : hdata) (flags : N) : bool :=
-  if hd_flags hd =? flags then hd_direct hd else has flags O_DIRECT.
+Definition fd_append (cf : cfg) (hd : hdata) (flags : N) : bool :=
+  if hd_flags hd =? flags then hd_append hd else has (setfl_flags cf flags) O_APPEND.
+Definition fd_direct (cf : cfg) (hd : hdata) (flags : N) : bool :=
+  if hd_flags hd =? flags then hd_direct hd else has (setfl_flags cf flags) O_DIRECT.
 
 Definition size_step (cf : cfg) (tbl : list (N * idata)) (h2 : host) (inode : N) (hdo : option hdata) (valid size : N) : res unit * host :=
   let c := root_kp (c_killpriv cf && has valid FATTR_KILL_SUIDGID) in
@@ -181,8 +181,8 @@ Definition direct_host (cf : cfg) (s : pstate) (q : req) : host :=
       | (Err _, h') => h'
       | (Ok hd, h') =>
           if negb (acc_w (hd_acc hd)) then h'
-          else if fd_direct hd flags && (0 <? len data) then h'
-          else snd (sys_pwrite (root_kp (c_killpriv cf && has ff WRITE_KILL_PRIV)) h' (hd_host hd) (fd_append hd flags) off data)
+          else if fd_direct cf hd flags && (0 <? len data) then h'
+          else snd (sys_pwrite (root_kp (c_killpriv cf && has ff WRITE_KILL_PRIV)) h' (hd_host hd) (fd_append cf hd flags) off data)
       end
   | QRead inode handle size off flags => snd (direct_fd cf s handle inode O_RDONLY)
   | QFsync inode handle => snd (direct_fd cf s handle inode O_RDONLY)
@@ -245,7 +245,7 @@ Definition direct_host (cf : cfg) (s : pstate) (q : req) : host :=
                     | Ok st =>
                         if negb (is_safe_inode (looked_mode (p_inodes s) i st)) then h'
                         else snd (sys_reopen (caller_creds_kp (kp_open cf ff) uid gid) h' i
-                                    (clear (clear (N.lor (clear (get_writeback_open_flags cf flags) O_DIRECT) O_CLOEXEC) O_NOFOLLOW) O_CREAT))
+                                    (clear (clear (N.lor (strip_direct cf (get_writeback_open_flags cf flags)) O_CLOEXEC) O_NOFOLLOW) O_CREAT))
                     end
                 end
               else h'
@@ -311,11 +311,11 @@ Proof.
       inversion H; subst; repeat split; assumption || reflexivity.
 Qed.
 
-Lemma check_fd_flags_direct : forall s hid hd flags hd' s', check_fd_flags s hid hd flags = (hd', s') ->
-  hd_host hd' = hd_host hd /\ hd_acc hd' = hd_acc hd /\ hd_append hd' = fd_append hd flags /\ hd_direct hd' = fd_direct hd flags /\
+Lemma check_fd_flags_direct : forall cf s hid hd flags hd' s', check_fd_flags cf s hid hd flags = (hd', s') ->
+  hd_host hd' = hd_host hd /\ hd_acc hd' = hd_acc hd /\ hd_append hd' = fd_append cf hd flags /\ hd_direct hd' = fd_direct cf hd flags /\
   p_host s' = p_host s /\ p_creds s' = p_creds s.
 Proof.
-  intros s hid hd flags hd' s' H. unfold check_fd_flags in H. unfold fd_append, fd_direct.
+  intros cf s hid hd flags hd' s' H. unfold check_fd_flags in H. unfold fd_append, fd_direct.
   destruct (hd_flags hd =? flags); [inversion H; subst; repeat split; reflexivity|].
   destruct hid; inversion H; subst; repeat split; reflexivity.
 Qed.
@@ -450,7 +450,7 @@ Lemma create_existing_host : forall cf s2 f flags ff uid gid rf s3 d', p_creds s
      (fun s0 => with_creds uid gid s0 (fun s00 => open_inode cf s00 f flags)) = (rf, s3) ->
   p_host s3 = (if negb (is_safe_inode (id_mode d')) then p_host s2
                else snd (sys_reopen (caller_creds_kp (kp_open cf ff) uid gid) (p_host s2) (id_host d')
-                          (clear (clear (N.lor (clear (get_writeback_open_flags cf flags) O_DIRECT) O_CLOEXEC) O_NOFOLLOW) O_CREAT))).
+                          (clear (clear (N.lor (strip_direct cf (get_writeback_open_flags cf flags)) O_CLOEXEC) O_NOFOLLOW) O_CREAT))).
 Proof.
   intros cf s2 f flags ff uid gid rf s3 d' Hc Ha H.
   match type of H with with_killpriv ?c ?s0 ?b = _ => destruct (with_killpriv_from_root _ c s0 b Hc) as [c1 [r [s1 [Hb Hw]]]]; rewrite Hw in H; inversion H; subst rf s3; clear H Hw end.
@@ -612,8 +612,8 @@ Proof.
     destruct (get_data cf (c_no_open cf) s handle inode O_RDONLY) as [r s1] eqn:Hg.
     destruct (get_data_direct _ _ _ _ _ _ _ Hc Hg) as [Hh1 _].
     destruct r as [[hid hd]|e]; [|inv4 H; exact Hh1].
-    destruct (check_fd_flags s1 hid hd flags) as [hd' s2] eqn:Hf.
-    destruct (check_fd_flags_direct _ _ _ _ _ _ Hf) as [_ [_ [_ [_ [Hh2 _]]]]].
+    destruct (check_fd_flags cf s1 hid hd flags) as [hd' s2] eqn:Hf.
+    destruct (check_fd_flags_direct _ _ _ _ _ _ _ Hf) as [_ [_ [_ [_ [Hh2 _]]]]].
     destruct (negb (acc_r (hd_acc hd'))); [inv4 H; rewrite Hh2; exact Hh1|].
     destruct (hd_direct hd' && (0 <? size)); [inv4 H; rewrite Hh2; exact Hh1|].
     destruct (sys_pread (p_host s2) (hd_host hd') size off); inv4 H; rewrite Hh2; exact Hh1.
@@ -622,8 +622,8 @@ Proof.
     destruct (get_data_direct _ _ _ _ _ _ _ Hc Hg) as [Hh1 [Hc1 [_ [_ Hr]]]].
     destruct (direct_fd cf s handle inode O_RDWR) as [rd hd0] eqn:Hd. cbn [fst snd] in Hh1, Hr.
     destruct r as [[hid hd]|e]; [|subst rd; fin4 H; exact Hh1]. subst rd.
-    destruct (check_fd_flags s1 hid hd flags) as [hd' s2] eqn:Hf.
-    destruct (check_fd_flags_direct _ _ _ _ _ _ Hf) as [Hho [Hac [Hap [Hdi [Hh2 Hc2]]]]].
+    destruct (check_fd_flags cf s1 hid hd flags) as [hd' s2] eqn:Hf.
+    destruct (check_fd_flags_direct _ _ _ _ _ _ _ Hf) as [Hho [Hac [Hap [Hdi [Hh2 Hc2]]]]].
     match type of H with context [with_killpriv ?c s2 ?b] =>
       destruct (with_killpriv_from_root _ c s2 b (eq_trans Hc2 Hc1)) as [c1 [r [s3 [Hb Hw]]]]; rewrite Hw in H; clear Hw end.
     rewrite <- Hac, <- Hdi.
@@ -935,7 +935,7 @@ Proof. vm_compute. reflexivity. Qed.
 
 (* non-vacuity of the hypotheses used above *)
 Definition wit_host : host := mkHost [(10, mkInode (KDir [] 10 false) 511 0 0 [])] 11 [].
-Definition wit_cfg : cfg := mkCfg true false false false false true 2 true.
+Definition wit_cfg : cfg := mkCfg true false false false false true 2 true true.
 Lemma wit_ok : p_creds (init_state wit_host 10) = root_creds /\ host_wf (p_host (init_state wit_host 10)) /\
   (exists a io s', create_then_lookup (init_state wit_host 10) 1000 1000 ROOT_ID [110]
                      (fun c h d => sys_mkdirat c h d [110] 493) = (RpEntry a, io, s') /\ a_uid a = 1000) /\
@@ -975,12 +975,12 @@ Qed.
 (* ---- the per-request flags word of READ/WRITE: check_fd_flags hands it to fcntl(F_SETFL) whenever it differs from the
    flags recorded for the descriptor; of the bits F_SETFL honours (O_APPEND, O_NONBLOCK, O_DIRECT, O_NOATIME) only
    O_APPEND changes what pread/pwrite do to a regular file; pwrite on an O_APPEND descriptor appends whatever the offset *)
-Theorem write_flags_status : forall s hid hd flags hd' s', check_fd_flags s hid hd flags = (hd', s') ->
-  hd_flags hd' = flags /\ hd_append hd' = fd_append hd flags /\
-  (hd_flags hd <> flags -> hd_append hd' = has flags O_APPEND) /\ (hd_flags hd = flags -> hd' = hd /\ s' = s).
+Theorem write_flags_status : forall cf s hid hd flags hd' s', check_fd_flags cf s hid hd flags = (hd', s') ->
+  hd_flags hd' = flags /\ hd_append hd' = fd_append cf hd flags /\
+  (hd_flags hd <> flags -> hd_append hd' = has (setfl_flags cf flags) O_APPEND) /\ (hd_flags hd = flags -> hd' = hd /\ s' = s).
 Proof.
-  intros s hid hd flags hd' s' H. destruct (check_fd_flags_sets _ _ _ _ _ _ H) as [H1 [_ [_ [H4 _]]]].
-  destruct (check_fd_flags_direct _ _ _ _ _ _ H) as [_ [_ [H3 _]]].
+  intros cf s hid hd flags hd' s' H. destruct (check_fd_flags_sets _ _ _ _ _ _ _ H) as [H1 [_ [_ [H4 _]]]].
+  destruct (check_fd_flags_direct _ _ _ _ _ _ _ H) as [_ [_ [H3 _]]].
   split; [exact H1|]. split; [exact H3|]. split; [exact H4|].
   intros E. unfold check_fd_flags in H. apply N.eqb_eq in E. rewrite E in H. inversion H; subst. split; reflexivity.
 Qed.
@@ -989,40 +989,3 @@ Theorem pwrite_append_ignores_offset : forall c h i off off' w,
   sys_pwrite c h i true off w = sys_pwrite c h i true off' w.
 Proof. intros. unfold sys_pwrite. destruct (get h i) as [v|]; [|reflexivity]. destruct (i_kind v); reflexivity. Qed.
 
-(* Under writeback the client kernel owns O_APPEND: open clears it on the descriptor (C05_flags_writeback_no_append).
-   The FULL statement "under writeback no descriptor of the handle map ever carries O_APPEND" is REFUTED: check_fd_flags
-   re-applies the request's O_APPEND through F_SETFL (reproduced on the real code; known finding). *)
-Definition C05_writeback_append_full : Prop :=
-  forall cf s q rp io ho s', c_writeback cf = true -> p_creds s = root_creds ->
-    (forall k hd, assoc k (p_handles s) = Some hd -> hd_append hd = false) ->
-    pstep cf s q = (rp, io, ho, s') ->
-    forall k hd, assoc k (p_handles s') = Some hd -> hd_append hd = false.
-
-Definition wb_cfg : cfg := mkCfg true false false true false true 3 false.
-Definition wb_host : host :=
-  mkHost [(10, mkInode (KDir [([102], 11)] 10 false) 511 0 0 []); (11, mkInode (KReg [48; 49; 50; 51]) 420 0 0 [])] 12 [].
-Definition wb_state : pstate :=
-  r_p (snd (run wb_cfg (start wb_host 10) [SLookup (Slot 0) [102]; SOpen (Slot 1) (O_WRONLY + O_APPEND) 0])).
-
-Theorem writeback_append_refuted : ~ C05_writeback_append_full.
-Proof.
-  intros F.
-  assert (H0 : forall k hd, assoc k (p_handles wb_state) = Some hd -> hd_append hd = false).
-  { assert (E : p_handles wb_state = [(1, mkHdata 2 11 524290 false 0 1025 false)]) by (vm_compute; reflexivity).
-    intros k hd H. rewrite E in H. cbn [assoc] in H. destruct (1 =? k); [inversion H; subst; reflexivity | discriminate H]. }
-  (* first WRITE without O_APPEND in its flags, second with: the second sets O_APPEND on the descriptor *)
-  pose (s1 := snd (pstep wb_cfg wb_state (QWrite 2 1 0 [65] O_WRONLY 0))).
-  assert (H1 : forall k hd, assoc k (p_handles s1) = Some hd -> hd_append hd = false).
-  { assert (E : p_handles s1 = [(1, mkHdata 2 11 524290 false 0 1 false)]) by (vm_compute; reflexivity).
-    intros k hd H. rewrite E in H. cbn [assoc] in H. destruct (1 =? k); [inversion H; subst; reflexivity | discriminate H]. }
-  specialize (F wb_cfg s1 (QWrite 2 1 0 [66] (O_WRONLY + O_APPEND) 0) _ _ _ _ eq_refl eq_refl H1 eq_refl 1).
-  vm_compute in F. specialize (F _ eq_refl). discriminate F.
-Qed.
-
-(* what the refutation means for the data: the same request (flags with O_APPEND, offset 0) first overwrites at 0, later appends *)
-Lemma writeback_append_witness :
-  let s1 := snd (pstep wb_cfg wb_state (QWrite 2 1 0 [65] (O_WRONLY + O_APPEND) 0)) in
-  let s2 := snd (pstep wb_cfg s1 (QWrite 2 1 0 [66] O_WRONLY 0)) in
-  let s3 := snd (pstep wb_cfg s2 (QWrite 2 1 0 [67] (O_WRONLY + O_APPEND) 0)) in
-  sys_pread (p_host s1) 11 16 0 = Ok [65; 49; 50; 51] /\ sys_pread (p_host s3) 11 16 0 = Ok [66; 49; 50; 51; 67].
-Proof. vm_compute. split; reflexivity. Qed.
